@@ -1,13 +1,13 @@
 (** What the reader of constructed trees (Model/Ser.v, [read_expr]) returns for a serialised
-    tree: the tree itself, except that the bits of every -perm test are truncated to the twelve
-    permission bits, as [Mode::from_bits_truncate] does in the harness.  Definitions only. *)
+    tree: the tree itself, except that the bits of every -perm test are truncated to 32 bits, the
+    width of [Mode] ([Mode::from_bits_retain] in the harness keeps every bit of the u32).  Definitions only. *)
 From Coq Require Import List NArith Bool.
 From FP Require Import Model.Chars Model.Ast.
 Import ListNotations.
 Local Open Scope N_scope.
 
 Definition mask_test (t : test) : test :=
-  match t with TPerm k bits => TPerm k (N.land bits 4095) | _ => t end.
+  match t with TPerm k bits => TPerm k (N.land bits 4294967295) | _ => t end.
 
 Fixpoint mask_perm (e : expr) : expr :=
   match e with
@@ -20,11 +20,11 @@ Fixpoint mask_perm (e : expr) : expr :=
   | EAction _ | EGlobal _ | EPositional => e
   end.
 
-(** every -perm test of the tree has its bits below 2^12 *)
+(** every -perm test of the tree has its bits below 2^32 *)
 Fixpoint perm_bits_small (e : expr) : Prop :=
   match e with
   | EPrec a | ENot a => perm_bits_small a
   | EAnd a b | EOr a b | EList a b => perm_bits_small a /\ perm_bits_small b
-  | ETest (TPerm _ bits) => bits < 4096
+  | ETest (TPerm _ bits) => bits < 4294967296
   | _ => True
   end.
